@@ -26,6 +26,7 @@ import (
 	"strconv"
 	"strings"
 	"sync"
+	"sync/atomic"
 	"time"
 
 	"github.com/LemoFoundationLtd/lemochain-core/chain/types"
@@ -463,7 +464,7 @@ type c08Image struct {
 }
 
 func c08RunChild(c *Ctx, img *c08Image, wl, H, upTo int) (*c08ChildOut, string) {
-	ctx, cancel := context.WithTimeout(context.Background(), 90*time.Second)
+	ctx, cancel := context.WithTimeout(context.Background(), 45*time.Second)
 	defer cancel()
 	outDir := img.dir + ".out"
 	os.MkdirAll(outDir, 0755)
@@ -700,6 +701,7 @@ func c08ChainOracle(c *Ctx, base string) {
 			die string
 		}
 		results := make([]result, len(images))
+		var hangs int32
 		var wg sync.WaitGroup
 		sem := make(chan struct{}, 4)
 		for i, img := range images {
@@ -708,7 +710,15 @@ func c08ChainOracle(c *Ctx, base string) {
 				defer wg.Done()
 				sem <- struct{}{}
 				defer func() { <-sem }()
+				if atomic.LoadInt32(&hangs) >= 3 {
+					results[i] = result{nil, "skipped: three reopen processes already hung"}
+					os.RemoveAll(img.dir)
+					return
+				}
 				o, die := c08RunChild(c, img, wl, H, H)
+				if o == nil && strings.Contains(die, "timeout (hang)") {
+					atomic.AddInt32(&hangs, 1)
+				}
 				results[i] = result{o, die}
 				os.RemoveAll(img.dir)
 			}(i, img)
